@@ -271,11 +271,7 @@ structure Inst where
 /-- The loop of service-apply.cpp:82-115. `none`: the rule raises ("Dictionary iterator requires value to be
     a dictionary" / "Array iterator requires value to be an array"). Without `for` the instance list is
     `[""]` and no variable is set (fkvar is empty). -/
-def instances (r : Rule) (t : Val) : Option (List Inst) :=
-  let fv := match r.fterm with
-    | none => ForVal.arr [.str ""]
-    | some f => f t
-  match fv with
+def instancesOf (r : Rule) : ForVal → Option (List Inst)
   | .err => some []
   | .other => some []
   | .arr l =>
@@ -284,6 +280,14 @@ def instances (r : Rule) (t : Val) : Option (List Inst) :=
   | .dict l =>
     if r.fvvar = "" then none
     else some (l.map fun kv => ⟨kv.1, [(r.fkvar, .str kv.1), (r.fvvar, kv.2)]⟩)
+
+/-- service-apply.cpp:69-80: the value iterated over. -/
+def forVal (r : Rule) (t : Val) : ForVal :=
+  match r.fterm with
+  | none => .arr [.str ""]
+  | some f => f t
+
+def instances (r : Rule) (t : Val) : Option (List Inst) := instancesOf r (forVal r t)
 
 def instKV (i : Inst) : Val × Val :=
   match i.binds with
@@ -371,7 +375,7 @@ def indexedOutcomes (w : World) (rules : Rules) (inv : Inventory) : List Outcome
 inductive LoadResult
   | rejected
   | accepted (objs : List Created)
-  deriving Repr
+  deriving DecidableEq, Repr
 
 def Outcome.isError : Outcome → Bool
   | .error => true
@@ -412,7 +416,7 @@ def apiEnv (w : World) (fvars : List (String × Val)) (t : Val) : Env :=
 /-- `filter_vars` as the `constants` argument of the recogniser: absent key ⇒ no dictionary. -/
 def apiConsts : Option (List (String × Val)) → Consts
   | none => none
-  | some l => some fun x => (l.reverse.lookup x)
+  | some l => some (bindAll l fun _ => none)
 
 /-- Evaluating the filter on every object of the type (`provider->FindTargets`, filterutility.cpp:327-329);
     `none`: some evaluation raised. -/
